@@ -12,7 +12,7 @@ touch.  Tie: both halves computed from the real `ResolvedPos` data (`inside_left
 with the model's values (driver op `commuteGuard`) on every separated pair of replace steps that both apply.  Relational oracle: guard true  =>  both rebased steps apply in the
 real code and give equal documents (a failure there is *not* excused by the open finding C17-parent-retyped).
 The same guard with `(from, to, slice)` of a replace-around step in place of one of the two replace steps
-(`commute_succeeds_around_before_partial` / `..._after_partial`): same tie, same oracle.
+(`commute_succeeds_around`): same tie, same oracle.
 
 Replace-around steps (last section of lean/Props/C17.lean):
 * `aroundShape` (lean/PM/CommuteGuard.lean, hypothesis `AroundShape` of the theorems): computed on the real step
